@@ -13,7 +13,7 @@ from vf.core import Result, lib
 ID = "C08"
 TITLE = "All pseudopressure routes agree and are strictly increasing in pressure"
 LEVEL = "exploration"
-BUDGET = {"quick": 640, "thorough": 150000}
+BUDGET = {"quick": 1600, "thorough": 150000}
 SHRINK = {"quick": False, "thorough": True}
 RULE = (
     "'gas' cases: a generated composition (N2/H2S/CO2 0..0.15, gravity 0.55..1.2, 80..400 F, both dryness settings), "
